@@ -1,3 +1,18 @@
-From CB Require Import Model.Mul.
-Theorem placeholder : True. Proof. exact I. Qed.
-Print Assumptions placeholder.
+(** C03 — multiplication and squaring. Statements only. (The row / schoolbook / Karatsuba theorems are added
+    by Proofs/MulP.v as they are completed; until then the model of Model/Mul.v is tied to the specification
+    a*b by evaluating both on every generated case.) *)
+From CB Require Import Model.Limbs Model.Mul Proofs.WordP.
+From Coq Require Import ZArith List.
+Open Scope Z_scope.
+
+(** multiply-accumulate primitive: exact for all words, the high word cannot overflow *)
+Theorem C03_mac_word_exact : forall a b c carry lo hi,
+  is_word a -> is_word b -> is_word c -> is_word carry -> mac a b c carry = (lo, hi) ->
+  lo + B * hi = a + b * c + carry /\ is_word lo /\ is_word hi.
+Proof. exact mac_exact. Qed.
+Print Assumptions C03_mac_word_exact.
+
+Example C03_nonvacuous :
+  schoolbook_mul [MAXW; MAXW] [MAXW; MAXW] = [1; 0; MAXW - 1; MAXW] /\
+  schoolbook_sq [MAXW; MAXW; 1] = schoolbook_mul [MAXW; MAXW; 1] [MAXW; MAXW; 1].
+Proof. vm_compute. split; reflexivity. Qed.
